@@ -106,12 +106,18 @@ func ConcurrentSub(name, what string, calls func(tier string) []Call, pairs func
 			}
 			idx := [2]int{cs.I, cs.J}
 			var res [2]string
-			mk := func() []func(ThreadSeam) {
-				return []func(ThreadSeam){
-					func(ThreadSeam) { res[0] = cl[idx[0]].Run() },
-					func(ThreadSeam) { res[1] = cl[idx[1]].Run() },
+			guarded := func(t int) func(ThreadSeam) {
+				return func(ThreadSeam) {
+					// a panic of the code under test in one interleaving is an observation, not a harness failure
+					defer func() {
+						if r := recover(); r != nil {
+							res[t] = fmt.Sprintf("PANIC: %v", r)
+						}
+					}()
+					res[t] = cl[idx[t]].Run()
 				}
 			}
+			mk := func() []func(ThreadSeam) { return []func(ThreadSeam){guarded(0), guarded(1)} }
 			names := cl[cs.I].Name + " || " + cl[cs.J].Name
 			judge := func(env *Env, s *Sched) {
 				ctx.Eval(4)
@@ -140,7 +146,15 @@ func ConcurrentSub(name, what string, calls func(tier string) []Call, pairs func
 					}
 				}
 				for t := 0; t < 2; t++ {
-					if got := cl[idx[t]].Run(); got != want[idx[t]] {
+					got := func() (r string) {
+						defer func() {
+							if p := recover(); p != nil {
+								r = fmt.Sprintf("PANIC: %v", p)
+							}
+						}()
+						return cl[idx[t]].Run()
+					}()
+					if got != want[idx[t]] {
 						ok = false
 						ctx.Failf(rc, "later-call-poisoned/"+cl[idx[t]].Name, "after %s ran under %s, a later sequential %s returns %.100q instead of %.100q", names, trace, cl[idx[t]].Name, got, want[idx[t]])
 					}
